@@ -128,8 +128,29 @@ def fixRsrc2 (r : BitVec 32) (kernargPtr : Bool) : BitVec 32 :=
   let r := r ||| (1#32 <<< 8)
   if ((r >>> 11) &&& 3#32) == 0#32 then (r &&& ~~~(3#32 <<< 11)) ||| (1#32 <<< 11) else r
 
-/-- `parseV5KernelDescriptor`: note the offsets the loader uses (40/44/48) -/
+/-- `parseV5KernelDescriptor` (repaired): the rsrc words at the offsets of the AMDGPU ABI
+(`amdhsa::kernel_descriptor_t`): compute_pgm_rsrc3 @44, rsrc1 @48, rsrc2 @52 -/
 def parseV5KernelDescriptor (d : Bytes) : Meta :=
+  let karg := u32 d 8
+  let r1 := u32 d 48
+  { lds := u32 d 0
+    priv := u32 d 4
+    kernarg := karg
+    entry := u64 d 16
+    rsrc3 := u32 d 44
+    rsrc1 := r1
+    rsrc2 := (fixRsrc2 (BitVec.ofNat 32 (u32 d 52)) (decide (karg > 0))).toNat
+    wiVgpr := ((extractBits r1 0 5 + 1) * 4) % 65536
+    wfSgpr := ((extractBits r1 6 9 + 1) * 8) % 65536
+    enKernargPtr := decide (karg > 0) }
+
+/-- the function reads bytes `[0, 56)` -/
+def parseV5KernelDescriptor? (d : Bytes) : Option Meta :=
+  if d.length < 56 then none else some (parseV5KernelDescriptor d)
+
+/-- `parseV5KernelDescriptor` before the repair: every rsrc word one slot early (40/44/48);
+kept for `C13_full_before_fix_refuted` -/
+def parseV5KernelDescriptorOld (d : Bytes) : Meta :=
   let karg := u32 d 8
   let r1 := u32 d 44
   { lds := u32 d 0
@@ -142,10 +163,6 @@ def parseV5KernelDescriptor (d : Bytes) : Meta :=
     wiVgpr := ((extractBits r1 0 5 + 1) * 4) % 65536
     wfSgpr := ((extractBits r1 6 9 + 1) * 8) % 65536
     enKernargPtr := decide (karg > 0) }
-
-/-- the function reads bytes `[0, 52)` -/
-def parseV5KernelDescriptor? (d : Bytes) : Option Meta :=
-  if d.length < 52 then none else some (parseV5KernelDescriptor d)
 
 /-! ## register-count overrides from `<k>.numbered_sgpr` / `<k>.num_vgpr` (uint16 arithmetic) -/
 
@@ -213,8 +230,35 @@ inductive KdLookup where
 
 def findSection (secs : List Section) (n : String) : Option Section := secs.find? (·.name == n)
 
-/-- `findV5KernelDescriptor` -/
+/-- `findV5KernelDescriptor` (repaired): the descriptor symbol is used only when it lies inside
+`.rodata`, compared without wrap-around (`sym.Value >= Addr`, `kdOffset <= len`, `len-kdOffset >= 64`) -/
 def findV5 (secs : List Section) (k : String) (syms : List Symbol) : KdLookup :=
+  match findSection secs ".rodata" with
+  | none => .none
+  | some ro =>
+    match ro.data with
+    | none => .none
+    | some rod =>
+      match syms.find? (fun s => s.name == k ++ ".kd" && s.size == 64) with
+      | none => .none
+      | some s =>
+        match secs[s.shndx]? with
+        | none => .none
+        | some sec =>
+          if sec.name == ".rodata" then
+            if ro.addr ≤ s.value then
+              let off := s.value - ro.addr
+              if off ≤ rod.length ∧ rod.length - off ≥ 64 then
+                match parseV5KernelDescriptor? ((rod.drop off).take 64) with
+                | some m => .found m
+                | none => .fault
+              else .none
+            else .none
+          else .none
+
+/-- `findV5KernelDescriptor` before the repair: `kdOffset := sym.Value - rodataSection.Addr` and
+`kdOffset+64 <= len` in wrapping uint64 arithmetic (kept for `findV5_before_fix_refuted`) -/
+def findV5Old (secs : List Section) (k : String) (syms : List Symbol) : KdLookup :=
   match findSection secs ".rodata" with
   | none => .none
   | some ro =>
